@@ -2,20 +2,11 @@
   Rivia.Lemmas.StdfsMain — C02: the per-step refinement theorem, assembled from the per-operation
   simulation lemmas.
 -/
-import Rivia.Lemmas.StdfsMove
+import Rivia.Lemmas.StdfsWalk
 
 namespace Rivia.Lemmas.StdfsL
 open Rivia Rivia.Memfs Rivia.File Rivia.Spec Rivia.Spec.TreeFs Rivia.Posix Rivia.Stdfs
 open Rivia.Lemmas.RefineA (TEquiv ResMatch)
-
-/-- the operations for which the refinement is proved -/
-def CoveredS : Op → Bool
-  | .cwd | .root | .abs _ | .exists _ | .isDir _ | .isFile _ | .isSymlink _ | .isSymlinkDir _
-  | .isSymlinkFile _ | .isExec _ | .isReadonly _ | .mode _ | .uid _ | .gid _ | .owner _
-  | .readAll _ | .read _ | .readlink _ | .readlinkAbs _
-  | .setCwd _ | .mkfile _ | .writeAll _ _ | .appendAll _ _ | .remove _ | .removeAll _ | .symlink _ _
-  | .writeLines _ _ | .appendLines _ _ | .appendLine _ _ | .readLines _ | .mkdirP _ | .mkdirM _ _ | .moveP _ _ => true
-  | _ => false
 
 theorem ctx_of {env : Env} {t : T} {op : Op} (hW : Wf t) (hD : D2 env t op) : Ctx env t ∧ opOk env t op = true := by
   unfold D2 d2B at hD
@@ -44,8 +35,8 @@ theorem refines_step (env : Env) (t : T) (op : Op) (r : R Val) (t' : T)
   case root => exact of_sim sim_root h
   case abs p => exact of_sim (sim_abs hc p) h
   case «exists» p => exact of_sim (sim_exists hc p) h
-  case isDir p => exact of_sim (sim_isDir p ho) h
-  case isFile p => exact of_sim (sim_isFile p ho) h
+  case isDir p => exact of_sim (sim_isDir hc p) h
+  case isFile p => exact of_sim (sim_isFile hc p) h
   case isSymlink p => exact of_sim (sim_isSymlink hc p) h
   case isSymlinkDir p => exact of_sim (sim_isSymlinkDir hc p) h
   case isSymlinkFile p => exact of_sim (sim_isSymlinkFile hc p) h
@@ -58,30 +49,49 @@ theorem refines_step (env : Env) (t : T) (op : Op) (r : R Val) (t' : T)
   case readAll p => exact of_sim (sim_readAll hc p) h
   case read p => exact of_sim (sim_read hc p) h
   case readlink p => exact of_sim (sim_readlink hc p) h
-  case readlinkAbs p =>
-    refine of_sim (sim_readlinkAbs hc p ?_) h
-    intro a n ha hg
-    simp only [opOk, ha, hg] at ho
-    exact ho
+  case readlinkAbs p => exact of_sim (sim_readlinkAbs hc p) h
   case setCwd p => exact of_sim (sim_setCwd hc p) h
   case mkfile p => exact of_sim (sim_mkfile hc p) h
   case writeAll p d => exact of_sim (sim_writeAll hc p d) h
   case appendAll p d => exact of_sim (sim_appendAll hc p d) h
-  case remove p =>
-    refine of_sim (sim_remove hc p ?_) h
-    intro a ha
-    simp only [opOk, ha] at ho
-    simpa using ho
-  case removeAll p =>
-    refine of_sim (sim_removeAll hc p ?_) h
-    intro a ha
-    simp only [opOk, ha] at ho
-    simpa using ho
+  case remove p => exact of_sim (sim_remove hc p) h
+  case removeAll p => exact of_sim (sim_removeAll hc p) h
   case symlink l tg => exact of_sim (sim_symlink hc l tg) h
   case writeLines p ls => exact of_sim (sim_writeLines hc p ls ho) h
   case appendLines p ls => exact of_sim (sim_appendLines hc p ls ho) h
   case appendLine p l => exact of_sim (sim_appendLine hc p l (by simpa [opOk] using ho)) h
   case readLines p => exact of_sim (sim_readLines hc p) h
+  case chown p uid gid => exact of_sim (sim_chownK hc p (some uid) (some gid) true ho) h
+  case chownB p c =>
+    obtain ⟨cu, cg, cf, cr⟩ := c
+    cases cf with
+    | true => simp at h
+    | false =>
+      simp only [Bool.false_eq_true, if_false] at h
+      exact of_sim (sim_chownK hc p cu cg cr ho) h
+  case paths p =>
+    obtain ⟨hrt, _⟩ := listOk_facts (env := env) (t := t) ho
+    exact of_sim (sim_listing1 hc hrt p wantAll (fun _ => true) hw_all (fun _ => true) (fun _ _ _ _ _ _ _ => rfl)) h
+  case dirs p =>
+    obtain ⟨hrt, hf⟩ := listOk_facts (env := env) (t := t) ho
+    exact of_sim (sim_listing1 hc hrt p wantDirs _ hw_dirs (fun n => decide (n.kind = .dir))
+      (fun a ha k m hm hp hal => wkDirs_nonlink ((hf a ha) rfl k m hm hp hal))) h
+  case files p =>
+    obtain ⟨hrt, hf⟩ := listOk_facts (env := env) (t := t) ho
+    exact of_sim (sim_listing1 hc hrt p wantFiles _ hw_files (fun n => decide (n.kind = .file))
+      (fun a ha k m hm hp hal => wkFiles_nonlink ((hf a ha) rfl k m hm hp hal))) h
+  case allPaths p =>
+    obtain ⟨hrt, _⟩ := listOk_facts (env := env) (t := t) ho
+    exact of_sim (sim_listingAll hc hrt p wantAll (fun _ => true) hw_all (fun _ => true)
+      (fun _ _ _ _ _ _ _ => rfl)) h
+  case allDirs p =>
+    obtain ⟨hrt, hf⟩ := listOk_facts (env := env) (t := t) ho
+    exact of_sim (sim_listingAll hc hrt p wantDirs _ hw_dirs (fun n => decide (n.kind = .dir))
+      (fun a ha k m hm hp hal => wkDirs_nonlink ((hf a ha) rfl k m hm hp hal))) h
+  case allFiles p =>
+    obtain ⟨hrt, hf⟩ := listOk_facts (env := env) (t := t) ho
+    exact of_sim (sim_listingAll hc hrt p wantFiles _ hw_files (fun n => decide (n.kind = .file))
+      (fun a ha k m hm hp hal => wkFiles_nonlink ((hf a ha) rfl k m hm hp hal))) h
   case moveP a b =>
     refine of_sim (sim_moveP hc a b ?_) h
     intro sa da hsa hda
@@ -91,10 +101,7 @@ theorem refines_step (env : Env) (t : T) (op : Op) (r : R Val) (t' : T)
   case mkdirM p m =>
     by_cases hm : permOk m = true ∧ m ≠ 0
     · rw [if_pos hm] at h
-      refine of_sim (sim_mkdirM hc p m hm.1 ?_) h
-      intro a n ha hg
-      simp only [opOk, ha, hg, Bool.or_eq_true, decide_eq_true_eq] at ho
-      exact ho
+      exact of_sim (sim_mkdirM hc p m hm.1) h
     · rw [if_neg hm] at h; cases h
 
 /-! ### composition with the Memfs refinement -/
@@ -127,5 +134,9 @@ theorem backends_agree (env : Env) (s : State) (op : Op) (r : R Val) (t' : T)
     cases m <;> cases st <;> simp_all [ResMatch, ResMatchOkErr, OutcomeAgree]
   | err k =>
     cases m <;> cases st <;> cases k <;> simp_all [ResMatch, ResMatchOkErr, OutcomeAgree]
+
+/-- every group-A operation of C01 is covered here -/
+theorem groupA_covered (op : Op) (hA : Rivia.Lemmas.RefineA.GroupA op = true) : CoveredS op = true := by
+  cases op <;> first | rfl | cases hA
 
 end Rivia.Lemmas.StdfsL
